@@ -132,7 +132,25 @@ func longLine(r *hx.Rng) []byte {
 
 func noNewline(b []byte) []byte { return bytes.ReplaceAll(b, []byte{'\n'}, []byte{'n'}) }
 
+// special lines: an underscore followed by a few characters of the Datadog special-type alphabet (events `_e`,
+// service checks `_sc`, …) and the tail of an ordinary line
+func genSpecial(r *hx.Rng) []byte {
+	alpha := "secxSCE{}:|0_"
+	b := []byte{'_'}
+	if r.Bool() {
+		b = []byte(hx.Pick(r, []string{"_sc", "_e", "_s", "_c", "_ev", "_E", "_sce", "__", "_"}))
+	}
+	for n := r.Range(0, 3); n > 0 && len(b) == 1; n-- {
+		b = append(b, alpha[r.Intn(len(alpha))])
+	}
+	tails := []string{"", "|name|0", "{1,1}:a|b", ":1|c", "|a|0|#t:1", "{2,3}:ab|xyz|p:low"}
+	return append(b, hx.Pick(r, tails)...)
+}
+
 func genLine(r *hx.Rng) ([]byte, string) {
+	if r.Chance(1, 12) {
+		return genSpecial(r), "special-prefix"
+	}
 	switch k := r.Intn(20); {
 	case k < 7:
 		return genEventHeader(r), "event-header"
